@@ -117,7 +117,7 @@ def generate_files(spec, cfgspec, json_bytes):
     """Run the REAL parser and builder from /repo/src."""
     try:
         fc = dznbuild.parse_json_ast(json_bytes)
-        return dznbuild.build(cfgspec, fc)
+        return dznbuild.build(cfgspec, fc, rebuild=True)
     except Exception as exc:  # pylint: disable=broad-except
         raise GenerationFailure(f'{type(exc).__module__}.{type(exc).__name__}: {exc}') from exc
 
